@@ -189,6 +189,8 @@ type Body struct {
 	Schema   *Schema
 	Required bool
 	Ref      string
+	// AlsoContent: further media types declared next to Content (each with a binary string schema)
+	AlsoContent []string
 }
 
 type Op struct {
@@ -289,7 +291,11 @@ func bodyDoc(b Body) map[string]interface{} {
 	if b.Schema != nil {
 		mt["schema"] = b.Schema.Doc()
 	}
-	m := map[string]interface{}{"content": map[string]interface{}{b.Content: mt}}
+	content := map[string]interface{}{b.Content: mt}
+	for _, a := range b.AlsoContent {
+		content[a] = map[string]interface{}{"schema": map[string]interface{}{"type": "string", "format": "binary"}}
+	}
+	m := map[string]interface{}{"content": content}
 	if b.Required {
 		m["required"] = true
 	}
